@@ -28,6 +28,8 @@ func gen(tier string, r *lib.Rand, emit func(string)) {
 			if n <= nodes-1 {
 				emit("print " + script(ast.Statement{Name: "a", Expr: two}, ast.Statement{Name: "return", Expr: e}, ast.Statement{Expr: e}))
 				emit("expr " + acclib.EncExpr(e))
+				emit("stmt " + script(ast.Statement{Name: "x1", Expr: e}))
+				emit("stmt " + script(ast.Statement{Expr: e}))
 			}
 		}
 	}
@@ -55,6 +57,12 @@ func gen(tier string, r *lib.Rand, emit func(string)) {
 		}
 		t.Statements = append(t.Statements, ast.Statement{Expr: acclib.RandExpr(r, size, o, true)})
 		emit("print " + acclib.EncScript(t))
+		// the same trees as bare expression / statement nodes
+		if i%3 == 0 {
+			last := t.Statements[len(t.Statements)-1]
+			emit("expr " + acclib.EncExpr(last.Expr))
+			emit("stmt " + script(t.Statements[0]))
+		}
 	}
 	// (c) trees outside the property's hypotheses: printed bytes are compared with the model only
 	odd := []string{"", " ", "a b", "1x", "x-y", "=", "return ", "(x)", "[1]", "2*x", "x+y", "a=b"}
@@ -112,6 +120,8 @@ func nontrivial(c, res string) bool {
 	f := strings.Split(c, " ")
 	r := strings.Split(res, " ")
 	switch f[0] {
+	case "expr", "stmt":
+		return strings.Count(f[1], ",") >= 2
 	case "large":
 		return res == "ok"
 	case "printhist", "parsehist":
